@@ -201,7 +201,7 @@ class ShapeHost(Host):
     def start(self, used):
         from lxml import etree
         self.slide = _slide()
-        tree = self.slide.shapes._spTree
+        tree = self.slide.element.find("{http://schemas.openxmlformats.org/presentationml/2006/main}cSld/{http://schemas.openxmlformats.org/presentationml/2006/main}spTree")
         P = "http://schemas.openxmlformats.org/presentationml/2006/main"
         A = "http://schemas.openxmlformats.org/drawingml/2006/main"
         for t in used:
